@@ -165,14 +165,16 @@ def guarded(fn, seconds=3, mem_gib=4):
     return ("exc", text[4:])
 
 
-def check_run(acc, op, srcs, tier):
+def check_run(acc, op, srcs, tier, options=None):
     code = program(op, srcs)
     nwords = len(srcs)
     spec = spec_for(code, nwords)
+    if options:
+        spec["options"] = dict(options)
     grid = grid_for(op, srcs, tier)
     risky = op == "EXP" and srcs[0][0] in ("con", "cbool") and srcs[1][0] == "con" and srcs[1][1] > 4096
-    case = {"kind": "run", "op": op, "srcs": [list(s) for s in srcs], "tier": tier}
-    key = f"run:{op}:" + ",".join(s[0] + (f"={s[1]:#x}" if len(s) > 1 and not isinstance(s[1], bool) else (f"={s[1]}" if len(s) > 1 else "")) for s in srcs)
+    case = {"kind": "run", "op": op, "srcs": [list(s) for s in srcs], "tier": tier, "options": options}
+    key = f"run:{op}{':' + str(sorted(options.items())) if options else ''}:" + ",".join(s[0] + (f"={s[1]:#x}" if len(s) > 1 and not isinstance(s[1], bool) else (f"={s[1]}" if len(s) > 1 else "")) for s in srcs)
     acc.count("programs")
     if risky:
         def fn():
@@ -449,6 +451,7 @@ def shards(tier, seed):
     for op in TER:
         for first in ("con", "sym", "bool", "cbool"):
             out.append({"kind": "run", "op": op, "arity": 3, "tier": tier, "first": first})
+    out.append({"kind": "expopt", "tier": tier})
     for name in GRID_OPS:
         out.append({"kind": "grid8", "op": name})
     for name in ("addmod", "mulmod"):
@@ -470,6 +473,14 @@ def run_shard(shard):
             n += 1
             if n == 3:
                 acc.sample({"op": op, "operands": [list(map(str, s)) for s in srcs], "program": asm.disasm(program(op, srcs))})
+    elif shard["kind"] == "expopt":
+        # EXP with a constant exponent is unrolled into multiplications up to --smt-exp-by-const (default 2): every setting of the
+        # option x every exponent around it, symbolic and boolean-typed bases
+        for k in (0, 1, 2, 3, 4, 5, 8):
+            for n in (0, 1, 2, 3, 4, 5, 7, 8, 9):
+                for base in (("sym",), ("bool",)):
+                    check_run(acc, "EXP", [base, ("con", n)], shard["tier"], {"smt_exp_by_const": k})
+        acc.sample({"op": "EXP", "smt_exp_by_const": [0, 1, 2, 3, 4, 5, 8], "exponents": [0, 1, 2, 3, 4, 5, 7, 8, 9]})
     elif shard["kind"] == "grid8":
         check_grid8(acc, shard["op"], 8)
         acc.sample({"grid": "8-bit complete", "method": shard["op"], "reps": ["con,con", "sym,sym", "con,sym", "sym,con"]})
@@ -500,7 +511,7 @@ def replay(case):
     acc = Acc()
     if case["kind"] == "run":
         srcs = tuple(tuple(s) for s in case["srcs"])
-        check_run(acc, case["op"], srcs, case.get("tier", "quick"))
+        check_run(acc, case["op"], srcs, case.get("tier", "quick"), case.get("options"))
     elif case["kind"] == "grid":
         check_grid8(acc, case["op"], case["w"])
     else:
